@@ -348,6 +348,29 @@ type rtCase struct {
 }
 
 func checkRT(c rtCase) *mc.Viol {
+	if c.Len == 0 {
+		// the empty string as a nil slice: still a string of length zero
+		for _, fn := range []string{"uint8", "varint"} {
+			if fn != c.Fn {
+				continue
+			}
+			pre := bytes.Repeat([]byte{0xEE}, c.Prefix)
+			dst := append(make([]byte, 0, c.Prefix+3), pre...)
+			var enc []byte
+			if p := mc.Catch(func() {
+				if fn == "uint8" {
+					enc = quicwire.AppendUint8Bytes(dst, nil)
+				} else {
+					enc = quicwire.AppendVarintBytes(dst, nil)
+				}
+			}); p != "" {
+				return &mc.Viol{Sig: "Append" + fn + "Bytes panics on a nil string", What: p}
+			}
+			if !bytes.Equal(enc, append(pre, 0x00)) {
+				return &mc.Viol{Sig: "Append" + fn + "Bytes: the empty string given as nil is not encoded as a zero length", What: fmt.Sprintf("prefix %d: got %x", c.Prefix, enc)}
+			}
+		}
+	}
 	v := make([]byte, c.Len)
 	for i := range v {
 		v[i] = byte(i*13 + 5)
